@@ -107,6 +107,43 @@ func TestVerifRegistryCover(t *testing.T) {
 					if remove {
 						live = map[int]*conn{}
 					}
+				case "IterateStop":
+					k := vsup.Int(e.Args[0])
+					seen := map[*conn]int{}
+					cm.iterate(func(c *conn) bool {
+						seen[c]++
+						return len(seen) < k
+					})
+					if len(seen) != k {
+						viol(i, "IterateStop", "visit", fmt.Sprintf("a walk ended by the callback at its visit %d visited %d connections", k, len(seen)))
+						return
+					}
+					for c, n := range seen {
+						if n != 1 || live[c.fd] != c {
+							viol(i, "IterateStop", "visit", fmt.Sprintf("fd=%d visited %d times, live=%v", c.fd, n, live[c.fd] == c))
+							return
+						}
+					}
+					// ... and the registry goes on exactly as if the walk had never happened: a removal in the middle and
+					// two registrations (the edge is the last one of its path)
+					victim := -1
+					for fd := range live {
+						if fd <= 12 && (victim < 0 || fd < victim) {
+							victim = fd
+						}
+					}
+					if victim >= 0 {
+						cm.delConn(live[victim])
+						delete(live, victim)
+						check(i, "IterateStop")
+						for _, fd := range []int{11, 12} {
+							if live[fd] == nil {
+								c := &conn{fd: fd}
+								cm.addConn(c, 0)
+								live[fd] = c
+							}
+						}
+					}
 				default:
 					panic("unknown action " + e.Action)
 				}
@@ -177,6 +214,23 @@ func describe(c *conn) string {
 // TestVerifRegistryInLoop: the registry as the event loop itself uses it -- registration (register0), close
 // (el.close), a registration the poller refuses, and the shutdown pattern (closeConns): after every step the
 // count, the lookups and an iteration must show exactly the live connections.
+// reenterHandler closes the connection once more from inside its OnClose (what a write that fails inside OnClose does
+// through conn.write -> eventloop.close, and what EventLoop.Close from the handler does): the entry is already gone
+// from the registry, so the second close is none.
+type reenterHandler struct {
+	BuiltinEventEngine
+	reenter bool
+	closes  map[int]int
+}
+
+func (h *reenterHandler) OnClose(c Conn, _ error) Action {
+	h.closes[c.Fd()]++
+	if h.reenter && h.closes[c.Fd()] < 3 {
+		_ = c.EventLoop().Close(c)
+	}
+	return None
+}
+
 func TestVerifRegistryInLoop(t *testing.T) {
 	rep := vsup.NewReport("registry-in-loop")
 	p, err := netpoll.OpenPoller()
@@ -184,7 +238,8 @@ func TestVerifRegistryInLoop(t *testing.T) {
 		t.Fatal(err)
 	}
 	defer p.Close() //nolint:errcheck
-	el := &eventloop{engine: &engine{opts: &Options{Logger: nullLogger{}}}, poller: p, eventHandler: &BuiltinEventEngine{}}
+	rh := &reenterHandler{closes: map[int]int{}}
+	el := &eventloop{engine: &engine{opts: &Options{Logger: nullLogger{}}}, poller: p, eventHandler: rh}
 	el.connections.init()
 	live := map[int]*conn{}
 	check := func(step string) {
@@ -215,13 +270,33 @@ func TestVerifRegistryInLoop(t *testing.T) {
 	}
 	rng := vsup.NewRng(vsup.Seed() + 14)
 	for round := 0; round < 40; round++ {
-		switch rng.Intn(4) {
+		switch rng.Intn(5) {
+		case 4: // close one whose OnClose closes it again
+			for fd, c := range live {
+				rh.reenter = true
+				func() {
+					defer func() {
+						if r := recover(); r != nil {
+							rep.Violation("registry/loop/panic", fmt.Sprintf("close re-entered from OnClose: %v", r), nil)
+						}
+					}()
+					_ = el.close(c, nil)
+				}()
+				rh.reenter = false
+				delete(live, fd)
+				if n := rh.closes[fd]; n != 1 {
+					rep.Violation("registry/loop/reenter", fmt.Sprintf("a close re-entered from inside OnClose ran OnClose %d times for one registration of fd %d", n, fd), nil)
+				}
+				break
+			}
+			check("close-reentered")
 		case 0, 1: // a registration that succeeds
 			c := mk()
 			if err := el.register0(c); err != nil {
 				t.Fatalf("register0: %v", err)
 			}
 			live[c.fd] = c
+			delete(rh.closes, c.fd)
 			check("register")
 		case 2: // a registration the poller refuses (a descriptor that cannot be polled): no entry may stay behind
 			fd, err := unix.Open("/dev/null", unix.O_RDWR|unix.O_CLOEXEC, 0)
